@@ -89,7 +89,8 @@ class Translate(Domain):
         # domain_bounds are in shape [x_min, x_max, y_min, y_max, ...]
         # both min and max have to be shifted by the same value
         new_bounds = domain_bounds + translation_values
-        return new_bounds
+        # like Rotate: a single box is returned in the common 1D layout
+        return new_bounds.squeeze(0)
 
     @property
     def boundary(self):
